@@ -13,7 +13,8 @@ PROPS_MODULE = 'Props.C06'
 COQ_TARGETS = ['theories/Extract/ExtractC06.vo']
 REQUIRED_THEOREMS = ['C06_total', 'C06_budget', 'C06_limit_error', 'C06_cycle_error', 'C06_operands_total',
                      'C06_exact_parser_in_range', 'C06_calls_bounded', 'C06_bounded_partial', 'C06_bounded_bytes_partial',
-                     'C06_bounded_bytes', 'C06_bounded_bytes_linear', 'C06_exact_parser_prints_short']
+                     'C06_bounded_bytes', 'C06_bounded_bytes_linear', 'C06_exact_parser_prints_short',
+                     'C06_bounded_bytes_parsed', 'C06_bounded_bytes_linear_parsed']
 MODEL = 'resolver'
 HARNESS_BINS = ['bundle_run', 'syn_run']
 RELEASE_TOO = True
@@ -41,8 +42,8 @@ ASSUMPTIONS = [
 PARTIAL = ('the byte bound is PROVED from bounds on the INPUTS only (C06_bounded_bytes_linear: bytes <= 102 x Tmax + 808 x W, Tmax = largest '
            'text sum of a pattern, W from the longest string of the resources, the longest printed argument and the bound F on user callbacks; '
            'C06_bounded_bytes: the product form), under two premises on the resources: (1) named_args_ok — no named-argument value is a '
-           'message/term reference or placeable: guaranteed by the grammar and, since the fix of D32, enforced by the parser (not yet proved as a '
-           'theorem about parser outputs); (2) every minimumFractionDigits literal <= K — this excludes exactly the known finding D11 '
+           'message/term reference or placeable: since the fix of D32 a THEOREM about every parser output, so for bundles built from parsed '
+           'resources the premise is discharged (C06_bounded_bytes_parsed, C06_bounded_bytes_linear_parsed; Bundle/ParsedBundle.v, ParsedNamedArgs.v); (2) every minimumFractionDigits literal <= K — this excludes exactly the known finding D11 '
            '(NUMBER(1, minimumFractionDigits: 99999999999) asks for ~10^11 bytes). The exact-decimal float parser used by the extracted model '
            'meets values_are_f64 for literals of at most 19 bytes (C06_exact_parser_in_range), not for all strings.')
 RULE = ('designed generators: placeable limit forced to trip at every syntactic position (select variant, nested placeable, call argument, term '
